@@ -97,6 +97,16 @@ REGEXES = [
     ('[0-9]{2}', re.search, ['a12b', '99'], ['a1b', '', 'x']),
     ('ab', re.match, ['ab', 'abz'], ['zab', 'a', '']),
     (r'\w+@\w+', None, ['a@b', 'x1@y2'], ['a@', '@b', 'a b@c']),
+    # a full match that needs the expression to be tried AGAIN for a longer match: an alternative that is a prefix of a later one,
+    # a lazy quantifier, an optional tail (re.match alone stops at the first way to succeed)
+    ('a|ab', None, ['a', 'ab'], ['b', 'abc', 'ba', '']),
+    (r'x|x-\w+', None, ['x', 'x-rate'], ['x-', 'y', 'xx']),
+    (r'\d+?', None, ['1', '123'], ['', '12a', 'a1']),
+    (r'(ab)*?c?', None, ['', 'ab', 'abab', 'ababc', 'c'], ['a', 'abca', 'cc']),
+    (r'[a-z]+?\.(txt|text)', None, ['a.txt', 'notes.text'], ['a.tx', '.txt', 'a.texts']),
+    ('a|ab', re.match, ['a', 'ab', 'abc', 'ax'], ['b', 'ba', '']),
+    (r'\d+?$', re.search, ['1', 'a123', '12'], ['', '12a', 'a']),
+    (r'^$|^-$', None, ['', '-'], ['--', ' ', 'a']),
 ]
 OPS = {'==': lambda a, b: a == b, '!=': lambda a, b: a != b, '>': lambda a, b: a > b, '<': lambda a, b: a < b,
        '>=': lambda a, b: a >= b, '<=': lambda a, b: a <= b}
